@@ -26,6 +26,7 @@ clause -- the damage shows up in the property's own post-conditions on the real 
            arguments (its remaining options as in its own last call): state shared between two routines of a
            family (a common memo, a cached mask) is then set up by the sibling.
   spell    Python bool options are passed as np.bool_ or 0 / 1 on two calls out of three.
+  negzero  on a third of the calls the zeros of float arguments are stored as -0.0.
   lock     on half of the judged calls the argument buffers are read-only: a write into the caller's array -- even
            one undone before returning -- raises ("assignment destination is read-only") and is booked as a C13
            violation instead of going unnoticed by the before / after comparison.
@@ -91,7 +92,7 @@ class History(object):
         self.n = {}         # fname -> call counter
         self.stats = {'reused_buffers': 0, 'fresh_buffers': 0, 'buffers_given_away': 0, 'aborted_precalls': 0,
                       'precalls_completed': 0, 'poisoned_results': 0, 'stability_rechecks': 0, 'primer_calls': 0,
-                      'primer_calls_raised': 0, 'sibling_calls': 0, 'respelled_flags': 0, 'readonly_argument_calls': 0, 'replayed_calls': 0, 'sibling_calls_raised': 0, 'soft_deadline_hits': 0}
+                      'primer_calls_raised': 0, 'sibling_calls': 0, 'respelled_flags': 0, 'negative_zero_arguments': 0, 'readonly_argument_calls': 0, 'replayed_calls': 0, 'sibling_calls_raised': 0, 'soft_deadline_hits': 0}
         self.siblings_seen = {}
         self._mon_ok = None
         self._armed = None
@@ -175,6 +176,13 @@ class History(object):
                 if not buf.flags.writeable:      # a watchdog interrupted the call that had it locked
                     buf.setflags(write=True)
             np.copyto(buf, v)
+            if buf.dtype.kind == 'f' and _pick(name, self.n.get(name, 0), 'z' + k) % 3 == 0:
+                # absent connections stored as -0.0 (what negating or rounding a matrix leaves behind): equal to 0 in
+                # every comparison, different only for signbit / 1/x / copysign
+                z = (buf == 0)
+                if z.any():
+                    buf[z] = -0.0
+                    self.stats['negative_zero_arguments'] += 1
             bound.arguments[k] = buf
             used.append((key, buf))
             self.originals.append(v)
